@@ -4656,7 +4656,8 @@ namespace detail {
                             case '?':
                             case ':':
                             case '-':case '0':case '1':case '2':case '3':case '4':case '5':case '6':case '7':case '8':case '9':
-                                break;
+                                ec = jmespath_errc::expected_key; // none of these can start a key (and nothing was consumed)
+                                return jmespath_expression{};
                             default:
                                 state_stack.back() = expr_state::expect_rbrace;
                                 state_stack.push_back(expr_state::key_val_expr);
